@@ -441,6 +441,24 @@ fn run_realtime(ctx: &mut Ctx) {
 // ------------------------------------------------------------------------------------------------------------
 const PAZIP_PRESETS: &[&str] = &["default", "fast", "high", "realtime", "reference"];
 fn pazip_cfg(name: &str) -> PaZipCompressorConfig { match name { "default" => PaZipCompressorConfig::default(), "fast" => PaZipCompressorConfig::fast_compression(), "high" => PaZipCompressorConfig::high_compression(), "realtime" => PaZipCompressorConfig::realtime(), _ => PaZipCompressorConfig::reference_compliant() } }
+/// `custom`: a preset (never the reference encoding) with every scalar knob redrawn from boundary-heavy ranges -- the presets
+/// pin e.g. output_buffer_size = 1 MiB and multithreading_threshold = 64 KiB, so code that depends on those values relative
+/// to the payload is otherwise only ever run on one side of the comparison
+fn pazip_cfg_for(c: &mut Case, name: &str) -> PaZipCompressorConfig {
+    if name != "custom" { return pazip_cfg(name); }
+    let base = *c.rng.pick(&["default", "fast", "high", "realtime"]); let mut g = pazip_cfg(base);
+    g.output_buffer_size = *c.rng.pick(&[0usize, 1, 64, 4096, 65536, 65537, 1 << 20, 4 << 20]);
+    g.multithreading_threshold = *c.rng.pick(&[0usize, 1, 4096, 65536, 65537, 1 << 20, (1 << 20) + 1, usize::MAX]);
+    g.enable_multithreading = !c.rng.chance(1, 4); g.enable_simd = c.rng.bool(); g.adaptive_thresholds = c.rng.bool(); g.collect_detailed_stats = c.rng.bool();
+    g.use_suffix_array_local_match = c.rng.bool();
+    g.max_local_probe_distance = *c.rng.pick(&[1u32, 2, 16, 255, 256, 4096, 65535, 65536, 1 << 20]);
+    g.max_global_probe_distance = *c.rng.pick(&[1u32, 2, 16, 255, 256, 4096, 65535, 65536, 1 << 20]);
+    g.min_net_benefit = *c.rng.pick(&[-64i32, -1, 0, 1, 8, 64, 4096]); g.literal_cost_bits = *c.rng.pick(&[0u32, 1, 8, 9, 64]); g.global_access_cost = *c.rng.pick(&[0u32, 1, 16, 64, 4096]);
+    g.learning_rate = *c.rng.pick(&[0.0f64, 0.001, 0.1, 0.5, 1.0]);
+    c.input_str("pazip_cfg", &format!("base={base} outbuf={} mt={}/{} simd={} adaptive={} stats={} sa_local={} probe={}/{} benefit={} lit={} gcost={} lr={}", g.output_buffer_size, g.enable_multithreading, g.multithreading_threshold,
+        g.enable_simd, g.adaptive_thresholds, g.collect_detailed_stats, g.use_suffix_array_local_match, g.max_local_probe_distance, g.max_global_probe_distance, g.min_net_benefit, g.literal_cost_bits, g.global_access_cost, g.learning_rate));
+    g
+}
 const TYPE_NAMES: [&str; 8] = ["Literal", "Global", "RLE", "NearShort", "Far1Short", "Far2Short", "Far2Long", "Far3Long"];
 
 /// Diagnostic only (goes into the failure detail): walk the token stream with the *encoder's* layout and report the first token
@@ -481,6 +499,7 @@ fn pazip_payload(c: &mut Case, big: bool, huge: bool) -> Vec<u8> {
 }
 /// dictionaries through the documented builder: trained on same / other / related / empty-ish data
 fn pazip_builder_case(c: &mut Case, preset: &str, tmode: &str, big: bool, huge: bool) -> Res {
+    let pcfg = pazip_cfg_for(c, preset);
     let x = pazip_payload(c, big, huge);
     let train: Vec<u8> = match tmode {
         "same" => if x.is_empty() { vec![b'a'; 8] } else { x.clone() },
@@ -503,13 +522,13 @@ fn pazip_builder_case(c: &mut Case, preset: &str, tmode: &str, big: bool, huge: 
     let lcp = x.iter().zip(train[..model_dlen.min(train.len())].iter()).take_while(|(a, b)| a == b).count();
     if lcp > 65_535 { c.tag("pazip_match_len_gt_64k"); }
     if model_dlen > 65_536 { c.tag("pazip_dict_gt_64k"); }
-    if x.len() >= (1 << 20) && pazip_cfg(preset).enable_multithreading && !pazip_cfg(preset).use_reference_encoding { c.tag("pazip_parallel_ge_1mib"); }
+    if x.len() >= (1 << 20) && pcfg.enable_multithreading && !pcfg.use_reference_encoding { c.tag("pazip_parallel_ge_1mib"); }
     c.set_nontrivial(false);
     let dict = match nopanic("DictionaryBuilder::build", || DictionaryBuilder::with_config(dc).build(&train))? { Ok(d) => d, Err(e) => { c.note("dict_build_err", 1); c.log(format!("{e}")); return Ok(()); } };
     let dtext = dict.dictionary_text().to_vec();
     let dlen = dict.dictionary_size(); c.note(if dlen == model_dlen { "dlen_model_ok" } else { "dlen_model_off" }, 1); c.note(if dlen <= 64 { "dict_le_64B" } else if dlen <= 65536 { "dict_le_64K" } else { "dict_gt_64K" }, 1);
     let pool = match SecureMemoryPool::new(SecurePoolConfig::small_secure()) { Ok(p) => p, Err(e) => return inconclusive(format!("pool: {e}")) };
-    let mut pz = match nopanic("PaZipCompressor::new", || PaZipCompressor::new(dict, pazip_cfg(preset), pool))? { Ok(p) => p, Err(e) => { c.note("ctor_err", 1); c.log(format!("{e}")); return Ok(()); } };
+    let mut pz = match nopanic("PaZipCompressor::new", || PaZipCompressor::new(dict, pcfg.clone(), pool))? { Ok(p) => p, Err(e) => { c.note("ctor_err", 1); c.log(format!("{e}")); return Ok(()); } };
     let ok = pazip_roundtrip(c, &mut pz, &x, &dtext, &format!("PaZip({preset}) dict={tmode}/{dlen}B"))?;
     c.set_nontrivial(ok && !x.is_empty());
     // the compressor is reusable (&mut self): a second payload through the same object
@@ -518,6 +537,7 @@ fn pazip_builder_case(c: &mut Case, preset: &str, tmode: &str, big: bool, huge: 
 }
 /// dictionaries through SuffixArrayDictionary::new directly (the whole training text becomes the dictionary), incl. > 64 KiB
 fn pazip_sadict_case(c: &mut Case, preset: &str, size: &str) -> Res {
+    let pcfg = pazip_cfg_for(c, preset);
     let bigdict = size == "gt64k";
     let dlen = match size { "gt64k" => 65537 + c.rng.usize_below(60_000), "long_match" => 65_600 + c.rng.usize_below(1500), "huge_xcxd" => *c.rng.pick(&[65_535usize, 65_536, 65_537, 70_000]), "mid" => 10_000 + c.rng.usize_below(40_000), _ => 16 + c.rng.usize_below(6000) };
     let k = if size == "huge_xcxd" { *c.rng.pick(&[10u32, 8]) } else if size == "long_match" { *c.rng.pick(&[8u32, 10]) } else { *c.rng.pick(&[10u32, 0, 5, 9, 12]) };
@@ -535,27 +555,36 @@ fn pazip_sadict_case(c: &mut Case, preset: &str, size: &str) -> Res {
     let dcfg = SuffixArrayDictionaryConfig { min_frequency: *c.rng.pick(&[1u32, 2, 4]), ..Default::default() };
     let dict = match nopanic("SuffixArrayDictionary::new", || SuffixArrayDictionary::new(&dict_text, dcfg))? { Ok(d) => d, Err(e) => { c.note("dict_build_err", 1); c.log(format!("{e}")); return Ok(()); } };
     let pool = match SecureMemoryPool::new(SecurePoolConfig::small_secure()) { Ok(p) => p, Err(e) => return inconclusive(format!("pool: {e}")) };
-    let mut pz = match nopanic("PaZipCompressor::new", || PaZipCompressor::new(dict, pazip_cfg(preset), pool))? { Ok(p) => p, Err(e) => { c.note("ctor_err", 1); c.log(format!("{e}")); return Ok(()); } };
+    let mut pz = match nopanic("PaZipCompressor::new", || PaZipCompressor::new(dict, pcfg.clone(), pool))? { Ok(p) => p, Err(e) => { c.note("ctor_err", 1); c.log(format!("{e}")); return Ok(()); } };
     let ok = pazip_roundtrip(c, &mut pz, &x, &dict_text, &format!("PaZip({preset}) direct dictionary of {dlen} B"))?;
     c.set_nontrivial(ok);
     Ok(())
 }
 /// large payloads (64 KiB .. 1 MiB+1, huge shapes) with a small builder dictionary trained on the payload's first bytes
 fn pazip_huge_case(c: &mut Case, preset: &str, sel: usize) -> Res {
+    let pcfg = pazip_cfg_for(c, preset);
     let x = huge_payload(c, sel, (1 << 20) + 1);
     let train = x[..x.len().min(3000)].to_vec(); c.input_str("train_mode", "prefix3000");
     let dc = DictionaryBuilderConfig { target_dict_size: 2048, max_dict_size: 4096, validate_result: true, sample_ratio: 1.0, use_parallel: false, enable_progress: false, ..Default::default() };
-    if x.len() >= (1 << 20) && pazip_cfg(preset).enable_multithreading && !pazip_cfg(preset).use_reference_encoding { c.tag("pazip_parallel_ge_1mib"); }
+    if x.len() >= (1 << 20) && pcfg.enable_multithreading && !pcfg.use_reference_encoding { c.tag("pazip_parallel_ge_1mib"); }
     c.set_nontrivial(false);
     let dict = match nopanic("DictionaryBuilder::build", || DictionaryBuilder::with_config(dc).build(&train))? { Ok(d) => d, Err(e) => { c.note("dict_build_err", 1); c.log(format!("{e}")); return Ok(()); } };
     let dtext = dict.dictionary_text().to_vec();
     let pool = match SecureMemoryPool::new(SecurePoolConfig::small_secure()) { Ok(p) => p, Err(e) => return inconclusive(format!("pool: {e}")) };
-    let mut pz = match nopanic("PaZipCompressor::new", || PaZipCompressor::new(dict, pazip_cfg(preset), pool))? { Ok(p) => p, Err(e) => { c.note("ctor_err", 1); c.log(format!("{e}")); return Ok(()); } };
+    let mut pz = match nopanic("PaZipCompressor::new", || PaZipCompressor::new(dict, pcfg.clone(), pool))? { Ok(p) => p, Err(e) => { c.note("ctor_err", 1); c.log(format!("{e}")); return Ok(()); } };
     let ok = pazip_roundtrip(c, &mut pz, &x, &dtext, &format!("PaZip({preset}) huge payload, dict {}B", dtext.len()))?;
     c.set_nontrivial(ok);
     Ok(())
 }
 fn run_pazip(ctx: &mut Ctx) {
+    { // non-preset configurations
+        for tmode in ["same", "other", "related"] { for idx in 0..ctx.n(10, 150) as u64 { ctx.case("pazip/custom", tmode, idx, |c| pazip_builder_case(c, "custom", tmode, false, false)); } }
+        for idx in 0..ctx.n(4, 40) as u64 { ctx.case("pazip/custom", "big_same", idx, |c| pazip_builder_case(c, "custom", "same", true, idx % 2 == 1)); }
+        for idx in 0..ctx.n(10, 100) as u64 { ctx.case("pazip/custom", "huge_shapes", idx, |c| pazip_huge_case(c, "custom", idx as usize)); }
+        for idx in 0..ctx.n(6, 80) as u64 { ctx.case("pazip_sadict/custom", "dict_small", idx, |c| pazip_sadict_case(c, "custom", "small")); }
+        for idx in 0..ctx.n(3, 40) as u64 { ctx.case("pazip_sadict/custom", "dict_mid", idx, |c| pazip_sadict_case(c, "custom", "mid")); }
+        for idx in 0..ctx.n(2, 16) as u64 { ctx.case("pazip_sadict/custom", "huge_xcxd", idx, |c| pazip_sadict_case(c, "custom", "huge_xcxd")); }
+    }
     for preset in PAZIP_PRESETS {
         let t = format!("pazip/{preset}");
         for tmode in ["same", "other", "related", "tiny"] { for idx in 0..ctx.n(12, 180) as u64 { ctx.case(&t, tmode, idx, |c| pazip_builder_case(c, preset, tmode, false, false)); } }
